@@ -21,6 +21,10 @@ type Gen struct {
 	Fuel    int  // remaining node budget
 	MaxClos int  // closure nesting bound
 	Excl    map[string]bool
+	// ConstBias (percent): prefer literals and the rewrite-triggering shapes of gen_const.go
+	ConstBias int
+	// Big: allow constant ranges of about 10^6 elements
+	Big bool
 	// statistics
 	Excluded map[string]int
 }
@@ -114,6 +118,12 @@ func (g *Gen) Leaf(ty *Ty) *X {
 	}
 	if g.anyIs(ty) && g.pick(4, "leafAny") == 0 {
 		return Var("Any", ty)
+	}
+	if g.ConstBias > 0 && (ty.K == KInt || ty.K == KStr) && g.pick(100, "cbias") < g.ConstBias {
+		if ty.K == KInt {
+			return LitInt(g.pick(7, "cbi"))
+		}
+		return LitStr(strAlphabet[g.pick(len(strAlphabet), "cbs")])
 	}
 	switch {
 	case ty.K == KInt:
@@ -314,6 +324,15 @@ func (g *Gen) num(ty *Ty, d int) *X {
 				}
 				return Idx(Var("MA", MapOf(TInt, RepIface)), LitStr(key), ty)
 			}})
+		}
+	}
+	if g.ConstBias > 0 {
+		switch k {
+		case KInt:
+			ps = append(ps, prod{4, func() *X { return g.ConstInt(d - 1) }}, prod{4, func() *X { return g.PureCall(ty, d) }},
+				prod{2, func() *X { return Len(g.constRange(d - 1)) }}, prod{1, func() *X { return Len(g.constIntArray(d - 1)) }})
+		case KF64:
+			ps = append(ps, prod{4, func() *X { return g.PureCall(ty, d) }}, prod{2, func() *X { return Bin("**", g.ConstInt(1), g.ConstInt(1), ty) }})
 		}
 	}
 	if k == KF64 {
@@ -591,6 +610,13 @@ func (g *Gen) boolean(d int) *X {
 	if g.Nil {
 		ps = append(ps, prod{3, func() *X { return g.nilCompare(d) }})
 	}
+	if g.ConstBias > 0 {
+		ps = append(ps, prod{10, func() *X { return g.constMembership(d) }}, prod{3, func() *X { return g.PureCall(TBool, d) }},
+			prod{2, func() *X {
+				op := []string{"==", "!=", "<", "<=", ">", ">="}[g.pick(6, "ccmp")]
+				return Bin(op, g.ConstInt(d-1), g.ConstInt(d-1), TBool)
+			}})
+	}
 	return g.choose("bool", ps)
 }
 
@@ -670,8 +696,28 @@ func (g *Gen) membership(d int) *X {
 				}
 			}
 		}
+		needle = g.fixIntArrayNeedle(needle, hay)
 		return Bin(op, needle, hay, TBool)
 	}
+}
+
+// fixIntArrayNeedle applies the exclusion of known finding "in-array-dyn-arith": the checker types arithmetic
+// (and conditionals) that mix an int with a dynamically typed operand as int, and in_array then turns
+// `x in [1,2]` into a map[int] lookup that fails for a needle that is not an int at run time.
+func (g *Gen) fixIntArrayNeedle(needle, hay *X) *X {
+	if !g.Excl["in-array-dyn-arith"] || hay.K != "arr" || len(hay.A) == 0 || !allOf(hay.A, isConstInt) || needle.Ty.K == KInt {
+		return needle
+	}
+	switch needle.K {
+	case "bin", "un", "cond", "elvis":
+		g.Excluded["in-array-dyn-arith"]++
+		saved := g.ConstBias
+		g.ConstBias = 0
+		l := g.Leaf(needle.Ty)
+		g.ConstBias = saved
+		return l
+	}
+	return needle
 }
 
 func needleStaticStr(x *X) bool {
@@ -884,6 +930,9 @@ func (g *Gen) str(d int) *X {
 	if g.Calls {
 		ps = append(ps, prod{2, func() *X { x := Call("LS", TStr, g.str(d-1)); x.Tag = g.tag(); return x }})
 	}
+	if g.ConstBias > 0 {
+		ps = append(ps, prod{4, func() *X { return g.ConstStr(d - 1) }}, prod{3, func() *X { return g.PureCall(TStr, d) }})
+	}
 	return g.choose("str", ps)
 }
 
@@ -922,6 +971,12 @@ func (g *Gen) seq(ty *Ty, d int) *X {
 		// slicing an array value taken from the environment is outside the domain (arrays reached through
 		// an interface are not addressable)
 		ps = append(ps, prod{2, func() *X { return g.slice(g.Expr(ty, d-1), ty, d) }})
+	}
+	if ty.Eq(TInts) && g.ConstBias > 0 {
+		ps = append(ps, prod{6, func() *X { return g.constRange(d - 1) }})
+	}
+	if ty.Eq(TAInt) && g.ConstBias > 0 {
+		ps = append(ps, prod{6, func() *X { return g.constIntArray(d - 1) }})
 	}
 	if ty.Eq(TInts) {
 		ps = append(ps,
